@@ -269,6 +269,19 @@ int main() {
       CHECK(mode == 0 ? "ostream_mpf_fixed_hex" : mode == 1 ? "ostream_mpf_fixed_HEX" : mode == 2 ? "ostream_mpf_fixed_oct" : "ostream_mpf_fixed_dec", os.str() == expct);
     }
   }
+  // float insertion against the C++ library's own formatting of the equal double, for every (value, notation, precision) whose decimal
+  // expansion is exact at that precision (table generated by the harness), x showpoint / showpos / uppercase x width / fill / adjustment
+  { struct { double v; int mode; int prec; } FT2[] = { /*FLOAT_TABLE*/ {1.5, 0, 6} };
+    for (auto ft : FT2) for (int fl = 0; fl < 8; fl++) for (int wd = 0; wd < 3; wd++) {
+      std::ostringstream a, b; mpf_class f(ft.v, 256);
+      std::ostream *os[2] = {&a, &b};
+      for (auto o : os) { if (ft.mode == 1) *o << std::fixed; if (ft.mode == 2) *o << std::scientific; *o << std::setprecision(ft.prec);
+        if (fl & 1) *o << std::showpoint; if (fl & 2) *o << std::showpos; if (fl & 4) *o << std::uppercase;
+        if (wd == 1) *o << std::setw(14); if (wd == 2) *o << std::setw(14) << std::left << std::setfill('*'); }
+      a << f; b << ft.v;
+      CHECK(ft.mode == 0 ? (fl & 1 ? "ostream_mpf_general_showpoint_vs_double" : "ostream_mpf_general_vs_double") : ft.mode == 1 ? "ostream_mpf_fixed_vs_double" : "ostream_mpf_scientific_vs_double", a.str() == b.str());
+    }
+  }
   // conversions between the classes and swap
   { mpz_class z("123456789012345678901234567890"); mpq_class q(z); mpf_class f(z, 256); CHECK("conv", q.get_num() == z && q.get_den() == 1 && mpz_class(f) == z);
     mpz_class a(5), b(-7); swap(a, b); CHECK("swap", a == -7 && b == 5); mpq_class x(1, 2), y(3); swap(x, y); CHECK("qswap", x == 3 && y == mpq_class(1, 2)); }
@@ -276,6 +289,37 @@ int main() {
   return 0;
 }
 '''
+
+
+def _float_table():
+    """(value, notation 0 general / 1 fixed / 2 scientific, precision) triples whose output shows the value exactly: no rounding rule involved"""
+    from fractions import Fraction
+    import math
+    vals = [0.5, 0.25, -0.25, 1.5, 1024.0, 0.125, 3.0, 65536.0, 0.0625, -7.75, 123456.0, 0.0025 * 0 + 0.00390625, 1e10, -0.5, 100.0, 0.75, 2.5e-1, 12.5, 99.5, 1e5, 1e6, 1234567.0, 0.0]
+    out = []
+    for v in vals:
+        fr = Fraction(v)
+        for prec in (0, 1, 2, 3, 6, 10, 17):
+            # fixed: exact when v * 10^prec is an integer
+            if (fr * 10 ** prec).denominator == 1:
+                out.append((v, 1, prec))
+            if fr != 0:
+                ex = math.floor(math.log10(abs(fr)))
+                if Fraction(10) ** ex > abs(fr):
+                    ex -= 1
+                if Fraction(10) ** (ex + 1) <= abs(fr):
+                    ex += 1
+                mant = abs(fr) / Fraction(10) ** ex
+                # (precision 0 outside fixed notation is taken as 6 by the classes - a documented choice in cxx/osfuns.cc - so it is
+                # compared only in fixed notation)
+                if prec and (mant * 10 ** prec).denominator == 1:
+                    out.append((v, 2, prec))
+                if prec and (mant * 10 ** (max(prec, 1) - 1)).denominator == 1:
+                    out.append((v, 0, prec))
+            elif prec:
+                out.append((v, 2, prec))
+                out.append((v, 0, prec))
+    return " ".join("{%r, %d, %d}," % t for t in out)
 
 
 def compile_run(src_path, exe, inc, libs, timeout=900):
@@ -398,7 +442,7 @@ def main(tier, seed, replay):
         for i in range(0, len(qok), per_tu):
             ch = qok[i:i + per_tu]
             jobs.append(("q", ch, g.q_program([(x[0], x[1]) for x in ch], g.QROUNDS)))
-        jobs.append(("misc", [], MISC_SRC))
+        jobs.append(("misc", [], MISC_SRC.replace("/*FLOAT_TABLE*/", _float_table())))
 
         def run_job(j):
             k, (kind, ch, prog) = j
